@@ -36,6 +36,7 @@ type routerSpec struct {
 	MinDelayNs int64 `json:"minDelayNs"`
 	JitterNs  int64 `json:"jitterNs"`
 	QueueSize int   `json:"queueSize"`
+	HairpinFlag bool `json:"hairpinFlag,omitempty"` // NATType.Hairpinning is set (documented as not implemented: datagrams to the NAT's own external addresses keep travelling through the parent)
 	DropOdd   bool  `json:"dropOdd"` // chunk filter dropping payloads with an odd tag
 }
 
@@ -112,7 +113,7 @@ func gen(r *harn.Rng, tier string) interface{} {
 		if depth[p] >= 3 {
 			p = 0
 		}
-		rs := routerSpec{Parent: p, Mapping: r.Intn(3), Filtering: r.Intn(3), OneToOne: r.Bool(0.15)}
+		rs := routerSpec{Parent: p, Mapping: r.Intn(3), Filtering: r.Intn(3), OneToOne: r.Bool(0.15), HairpinFlag: r.Bool(0.3)}
 		sc.Routers = append(sc.Routers, rs)
 		depth = append(depth, depth[p]+1)
 	}
@@ -563,7 +564,7 @@ func run(env *simrt.Env, sci interface{}) {
 			base := strings.TrimSuffix(p.cidr.IP.String(), ".0")
 			childCount[rs.Parent]++
 			wan := fmt.Sprintf("%s.%d", base, 200+childCount[rs.Parent])
-			nt := &vnet.NATType{MappingBehavior: vnet.EndpointDependencyType(rs.Mapping), FilteringBehavior: vnet.EndpointDependencyType(rs.Filtering), MappingLifeTime: 24 * time.Hour}
+			nt := &vnet.NATType{MappingBehavior: vnet.EndpointDependencyType(rs.Mapping), FilteringBehavior: vnet.EndpointDependencyType(rs.Filtering), MappingLifeTime: 24 * time.Hour, Hairpinning: rs.HairpinFlag}
 			if rs.OneToOne {
 				nt.Mode = vnet.NATModeNAT1To1
 				// pairs for the hosts of this router: host k gets local .k+1 <-> external 2x0+k
